@@ -35,6 +35,8 @@ ASSUMPTIONS = [
     "5xx is legitimate only when the request itself carries an error-injection option addressing it",
 ]
 WATCHDOG_S = 10
+# signatures whose verdict rests on a wall-clock limit: the runner replays them alone before reporting them
+CONFIRM_ALONE = ("unbounded/",)
 
 
 class Watchdog(BaseException):
